@@ -22,7 +22,7 @@
    (/repo "fix: theta sketch whose updates were all screened out by theta reported itself empty",
    known_findings.d/theta-D5-screened-empty.json). *)
 From DS Require Import Base.Prelude Base.FloatBits Base.ThetaLib Model.Theta.
-From DS Require Import Proofs.ThetaOpenAddr Proofs.ThetaProofs Proofs.ThetaKmv.
+From DS Require Import Spec.ThetaKmv Proofs.ThetaOpenAddr Proofs.ThetaProofs Proofs.ThetaKmv Proofs.ThetaSpecRefine.
 From Coq Require Import Permutation Sorted Floats.
 Open Scope N_scope.
 
@@ -152,6 +152,26 @@ Theorem c04_build_ok :
   sk_build c = Ok (sk_new c).
 Proof. exact build_ok. Qed.
 
+(* kmv_spec: refinement.  Spec/ThetaKmv.v is the sketch as a pure set machine (state: table size
+   exponent, theta, the ascending list of retained hashes, emptiness; theta DEFINED by the rebuild rule:
+   when the set outgrows 15/16 of the largest table, or on trim, keep the k smallest and let theta be the
+   (k+1)-th smallest).  After every history the model's abstract state [k_abs s] -- (lg_cur, theta,
+   sorted entries, is_empty) -- is exactly the Spec's *)
+Theorem c04_refines_kmv_spec :
+  forall reorder, reorder_ok reorder -> forall c ops s, cfg_ok c -> reach reorder c ops s ->
+  k_abs s = spec_run c ops.
+Proof. exact run_refines. Qed.
+
+(* hence nothing observable depends on the order in which rebuild re-inserts the surviving entries
+   (which `select_nth_unstable` leaves unspecified): two admissible orders reach the same table size,
+   theta, emptiness, count and SET of entries *)
+Theorem c04_rebuild_order_irrelevant :
+  forall r1 r2, reorder_ok r1 -> reorder_ok r2 ->
+  forall c ops s1 s2, cfg_ok c -> reach r1 c ops s1 -> reach r2 c ops s2 ->
+  t_lg_cur s1 = t_lg_cur s2 /\ t_theta s1 = t_theta s2 /\ t_empty s1 = t_empty s2 /\
+  t_n s1 = t_n s2 /\ Permutation (sk_entries s1) (sk_entries s2).
+Proof. exact order_irrelevant. Qed.
+
 (* the executable instance used by the correspondence check is one of the admitted orders *)
 Theorem c04_ascending_ok : reorder_ok ascending.
 Proof. exact ascending_ok. Qed.
@@ -165,7 +185,8 @@ Example c04_example :
   cfg_ok c /\ theta0 c = MAX_THETA /\
   exists s, reach ascending c ops s /\ t_theta s = 33 /\ t_n s = 32 /\ t_lg_cur s = 6 /\
             sortN (sk_entries s) = rangeN 32 1 /\ sk_is_empty s = false /\
-            ce_entries (sk_compact s true) = rangeN 32 1.
+            ce_entries (sk_compact s true) = rangeN 32 1 /\
+            spec_run c ops = mkK 6 33 (rangeN 32 1) false.
 Proof.
   cbv zeta. split; [unfold cfg_ok; cbn; lia|]. split; [vm_compute; reflexivity|].
   eexists. split; [vm_compute; reflexivity|]. vm_compute. repeat split; reflexivity.
